@@ -85,6 +85,11 @@ def gen_case(seed, n):
     c["chunked_req"] = c["method"] != "GET" and r.random() < 0.5
     c["body_len"] = r.choice([0, 1, 100, 5000])
     c["cache"] = r.random() < 0.3
+    # an interim (103) response with its own hop-by-hop nominations, relayed as a control message
+    r1 = random.Random(f"C04:1xx:{seed}:{n}")
+    c["interim"] = r1.random() < 0.3
+    c["m1xx"] = f"mi{seed}x{n}"
+    c["i_headers"], c["i_forb"], c["i_e2e"], c["i_listed"] = gen_side(r1, c["m1xx"], ["Keep-Alive", "Proxy-Connection", "Proxy-Authenticate"])
     return c
 
 
@@ -99,7 +104,10 @@ def run(a, res):
         hs = list(c["rsp_headers"])
         if c["cache"]:
             hs.append(("Cache-Control", "max-age=600"))
-        return Resp(200, hs, length=50)
+        resp = Resp(200, hs, length=50)
+        if c["interim"]:
+            resp.interim = [("HTTP/1.1 103 Early Hints\r\n" + "".join(f"{k}: {v}\r\n" for k, v in c["i_headers"]) + "Link: </c04.css>; rel=preload\r\n\r\n").encode("latin1")]
+        return resp
 
     lab = Lab(a, res, handler=handler, conf="cache_mem 16 MB\n")
     wit = lambda c: {"seed": c["seed"], "case": c["n"]}
@@ -150,6 +158,14 @@ def run(a, res):
         e2e_ok = sum(1 for nme in c["req_e2e"] if any(k.lower() == nme for k, _ in up.headers))
         res.count("e2e_request_headers_delivered", e2e_ok)
         res.count("e2e_request_headers_sent", len(c["req_e2e"]))
+        # ---- interim responses relayed to the client
+        for im in conn.interim:
+            res.count("interim_relayed")
+            for name, value in im.headers:
+                ln = name.lower()
+                if ln in c["i_forb"] and c["i_forb"][ln] in value:
+                    kind = "listed-in-connection" if ln in c["i_listed"] else "standard-" + ln
+                    res.violation(f"interim-hop-header-relayed:{kind}", f"client received '{name}: {value}' in a {im.status} interim response; the origin sent it as hop-by-hop; origin 1xx headers={c['i_headers']}", wit(c))
         # ---- response side
         for name, value in m.headers:
             ln = name.lower()
